@@ -594,7 +594,12 @@ def oracle_design(coords, spec, swap, impl, model_steps):
             steps[n] = res[k][0]
             k += 1
     if k != len(res):
-        bad.append(("requested_abscissa", f"row {k} has abscissa {res[k][0]!r}, which is not the next requested one ({steps[:12]})"))
+        if spec[0] == "L":
+            bad.append(("requested_abscissa", f"row {k} has abscissa {res[k][0]!r}, which is not the next requested one ({steps[:12]})"))
+        else:
+            # default abscissae: evenly spaced from xmin + 1e-4*span to xmax - 1e-4*span (grid computed above)
+            bad.append(("default_span", f"row {k} has abscissa {res[k][0]!r}, which is not the next point of the evenly spaced "
+                                        f"grid over the extent [{float(np.min(x1))!r}, {float(np.max(x1))!r}]: {steps[:12]}"))
         return bad
     ymax_poly, ymin_poly = float(np.max(y1)), float(np.min(y1))
     for n, x2 in enumerate(steps):
@@ -618,20 +623,6 @@ def oracle_design(coords, spec, swap, impl, model_steps):
             if y < c[2] - c[4]:
                 bad.append(("top_ordinate",
                             f"at abscissa {x2!r} returned ordinate {y!r} but edge {c[0]} crosses at the larger y={float(c[2])!r} (t={float(c[1])!r}, exact-regime={c[5]})"))
-    # default abscissae span the extent
-    if spec[0] in ("D", "N") and not bad:
-        num = 10 if spec[0] == "D" else int(spec[1])
-        xmin, xmax = float(np.min(x1)), float(np.max(x1))
-        span = xmax - xmin
-        if len(res) != num and span > 0:
-            bad.append(("default_span", f"{len(res)} design conditions for {num} default abscissae"))
-        elif num >= 2 and span > 0:
-            xs = [r[0] for r in res]
-            if not (xmin <= xs[0] <= xmin + 1e-3 * span and xmax - 1e-3 * span <= xs[-1] <= xmax):
-                bad.append(("default_span", f"abscissae {xs[0]!r}..{xs[-1]!r} do not span the extent {xmin!r}..{xmax!r}"))
-            d = np.diff(xs)
-            if np.any(d <= 0) or np.max(np.abs(d - (xs[-1] - xs[0]) / (num - 1))) > 1e-9 * max(abs(xmin), abs(xmax), span):
-                bad.append(("default_span", "default abscissae are not evenly spaced / increasing"))
     return bad[:4]
 
 
@@ -939,6 +930,11 @@ def process_design(ck, cases):
         ck.count("design:max_crossings=" + (str(ncross) if ncross < 5 else "5+"))
         if "res" in impl and "steps" in mF:
             ck.count("design:omitted_steps", len(mF["steps"]) - len(impl["res"]))
+            got = {f2b(r[0]) for r in impl["res"]}
+            lost = sum(1 for x2, per in zip(mF["steps"], mQ["per"]) if per["pts"] and f2b(x2) not in got)
+            if lost:
+                # exact model reports a (borderline) intersection, the doubles of the real code lose it
+                ck.count("design:abscissa_lost_to_rounding_at_a_vertex", lost)
         bad = oracle_design(coords, spec, swap, impl, mF.get("steps", []))
         # swap_axis == exchanging the two coordinates (metamorphic, on the implementation)
         if "res" in impl:
@@ -1044,9 +1040,9 @@ def main(ck):
     process_design(ck, [c for c in corp if c["kind"] == "design"])
     process_inter(ck, [c for c in corp if c["kind"] == "inter"])
     if not thorough:
-        run_generated(ck, rng, 250, 20, 2, False)
+        run_generated(ck, rng, 400, 30, 3, False)
     else:
-        jobs = [(ck.seed, i, 600, 60, 3) for i in range(16)]
+        jobs = [(ck.seed, i, 800, 80, 3) for i in range(32)]
         with multiprocessing.Pool(8) as pool:
             for r in pool.imap_unordered(_worker, jobs):
                 ck.evaluations += r["evaluations"]
